@@ -166,6 +166,16 @@ class Run(OpsMixin, CallsMixin):
             return z3.Or(Value.is_VInt(v), Value.is_VNum(v))
         if ty == 'tuple':
             return Value.is_VTup(v)
+        if ty.startswith('tuple<='):
+            n = int(ty[7:])
+            l = Value.t(v)
+            opts = []
+            pre = []
+            for k in range(n + 1):
+                opts.append(z3.And(pre + [VList.is_Nil(l)]))
+                pre = pre + [VList.is_Cons(l)]
+                l = VList.tl(l)
+            return z3.And(Value.is_VTup(v), z3.Or(opts))
         if ty == 'ref':
             return z3.And(Value.is_VRef(v), Value.a(v) >= 0, Value.a(v) < self.alloc)
         if ty in CLS or ty in self.eng.repo.classes:
@@ -197,7 +207,7 @@ class Run(OpsMixin, CallsMixin):
             for (name, ann, dflt) in contract.params:
                 env[name] = self.sym_param(name, ann)
             if contract.vararg:
-                env[contract.vararg] = self.sym_param(contract.vararg, 'tuple')
+                env[contract.vararg] = self.sym_param(contract.vararg, contract.vararg_ann or 'tuple')
             if contract.kind != 'lemma':
                 real = [a.arg for a in fn.args.args]
                 want = [p[0] for p in contract.params]
@@ -219,7 +229,7 @@ class Run(OpsMixin, CallsMixin):
             self.entry_measure = None
             dec = contract.of('decreases')
             if dec:
-                self.entry_measure = self.as_int(self.ev_spec(dec[0].expr))
+                self.entry_measure = self.as_int(self.ev_spec_val(dec[0].expr))
             result = None
             try:
                 self.exec_block(body)
